@@ -102,7 +102,7 @@ CHECKS['C08'] = {
 }
 
 CHECKS['C07'] = {
-    'verus_units': ['engine', 'executor', 'converter'],
+    'verus_units': ['engine', 'executor', 'converter', 'aggresult'],
     'clause_prefixes': ['c07', 'out.'],
     'technique': 'contract-based deductive verification (Verus): ExecutionEngine::update_limit / reached_limit / execute extracted from /repo; prefix lemma over the update_limit contract',
     'claim': 'Proof for all outputs, limits and row counters that update_limit keeps exactly the prefix of rows the LIMIT still allows, counts every kept row (NULL-only rows included), and raises reached_limit exactly when the count reaches n (at once for n = 0 via reached_limit()); that execute applies it to every SELECT line and truncates the final aggregate table to the first n groups; lemma: over any sequence of calls the emitted rows are the first n rows of the unlimited output. The reader loops that must stop consuming input are covered by the executor unit (C12) where claimed.',
